@@ -6,3 +6,4 @@ open PgmVerif
 #print axioms PgmVerif.C19_lambda_tie
 #print axioms PgmVerif.C19_pearson_cell
 #print axioms PgmVerif.C19_pearson_stat_nonneg
+#print axioms PgmVerif.C19_yates_between
